@@ -17,7 +17,9 @@ Statements about the executable definitions of `Pdq.Model.Linearize` (run by `pd
   right ones along the exact solution;
 * `residual_from_ode_spec`, `residual_from_ode_order`, `stack_spec`;
 * `pd_is_partial_derivative` (dual numbers), `linearize_{dense,blockdiag,iso}_{jac,value}`,
-  `linearize_iso_exact_of_isotropic`, `ts0_value`, `ts0_dense_value`, `ts1_eq_residual`.
+  `linearize_iso_exact_of_isotropic`, `ts0_value`, `ts0_dense_value`, `ts1_eq_residual`;
+* `residual_route_determines` (for C10): a coefficient list starting with `inits` annihilates the
+  lifted ODE residual iff it is `taylorCoeffs`.
 -/
 set_option linter.unusedSectionVars false
 open Matrix
@@ -328,6 +330,125 @@ theorem ts0_dense_value (n d : ℕ) (idxs : List ℕ) (fv : List (List K)) (ξ :
 end linearise
 
 
+/-! ## the residual route (C10): the lifted ODE residual determines the Taylor coefficients -/
+
+section residual_route
+variable [Field K] [CharZero K]
+
+theorem iter_D_residual (Kk a j : ℕ) (f : Expr K) :
+    iter D j (add (var Kk a) (neg f)) = add (var (Kk + j) a) (neg (iter D j f)) := by
+  induction j generalizing Kk f with
+  | zero => rfl
+  | succ j ih =>
+      simp only [iter, D]
+      rw [ih (Kk + 1) (D f)]
+      congr 2; omega
+
+/-- `taylorCoeffs` is the only coefficient list that starts with `inits` and satisfies the recurrence -/
+theorem tc_unique (fs : List (Expr K)) (inits : List (List K)) (t : K) (N : ℕ)
+    (hord : ∀ f ∈ fs, f.order ≤ inits.length) (c : List (List K)) (hlen : c.length = inits.length + N)
+    (hinit : ∀ k < inits.length, c.getD k [] = inits.getD k [])
+    (hrec : ∀ j < N, c.getD (inits.length + j) [] = fs.map fun f => evalOn c t (iter D j f)) :
+    c = taylorCoeffs fs inits t N := by
+  have key : ∀ k, k < inits.length + N → c.getD k [] = (taylorCoeffs fs inits t N).getD k [] := by
+    intro k
+    induction k using Nat.strong_induction_on with
+    | _ k ih =>
+      intro hk
+      rcases Nat.lt_or_ge k inits.length with h | h
+      · rw [hinit k h, tc_inits fs inits t N k h]
+      · obtain ⟨j, rfl⟩ : ∃ j, k = inits.length + j := ⟨k - inits.length, by omega⟩
+        rw [hrec j (by omega), tc_get fs inits t hord (by omega)]
+        refine List.map_congr_left fun f hf => ?_
+        refine evalOn_congr _ _ _ _ fun k' hk' => ?_
+        have := order_iter_D_le f j
+        have := hord f hf
+        exact ih k' (by omega) (by omega)
+  exact list_ext_getD [] (by rw [hlen, tc_length]) fun k hk => key k (by omega)
+
+
+
+theorem odeResidual_getD (Kk : ℕ) (f : List (Expr K)) (a : ℕ) (ha : a < f.length) :
+    (odeResidual Kk f).getD a (const 0) = add (var Kk a) (neg (f.getD a (const 0))) := by
+  rw [odeResidual_eq]
+  simp [List.getD_eq_getElem?_getD, ha]
+
+theorem odeResidual_order (Kk : ℕ) (f : List (Expr K)) (hord : ∀ g ∈ f, g.order ≤ Kk) :
+    ∀ r ∈ odeResidual Kk f, r.order ≤ Kk + 1 := residual_from_ode_order Kk f hord
+
+/-- evaluated lifted ODE residual, entry `(j, a)`: `u^(K+j)_a − (D^j f_a)(c, t)` -/
+theorem lifted_residual_entry (Kk : ℕ) (fs : List (Expr K)) (c : List (List K)) (t : K) (j a : ℕ)
+    (ha : a < fs.length) :
+    ((odeResidual Kk fs).map fun g => evalOn c t (iter D j g)).getD a 0
+      = getU c (Kk + j) a - evalOn c t (iter D j (fs.getD a (const 0))) := by
+  have hl : a < (odeResidual Kk fs).length := by rw [odeResidual_length]; exact ha
+  have h1 : (odeResidual Kk fs)[a] = (odeResidual Kk fs).getD a (const 0) := by
+    simp [List.getD_eq_getElem?_getD, hl]
+  simp only [List.getD_eq_getElem?_getD, List.getElem?_map, List.getElem?_eq_getElem hl, Option.map_some,
+    Option.getD_some]
+  rw [h1, odeResidual_getD Kk fs a ha, iter_D_residual]
+  simp only [evalOn, eval, List.getD_eq_getElem?_getD]
+  ring
+
+/-- **the residual route determines the coefficients** (C10, last sentence): a coefficient list that
+starts with `inits` annihilates the ODE residual `u^(K) − f` lifted by `num − 1` (all its total
+derivatives up to order `num − 1`) iff it is `taylorCoeffs`.  This is the feasible set of the
+constrained least-squares problem solved by `jetexpand_residual`. -/
+theorem residual_route_determines (fs : List (Expr K)) (inits : List (List K)) (t : K) (num : ℕ)
+    (hK : 1 ≤ inits.length) (hnum : 1 ≤ num) (hord : ∀ f ∈ fs, f.order ≤ inits.length)
+    (c : List (List K)) (hlen : c.length = inits.length + num) (hinit : c.take inits.length = inits)
+    (hdim : ∀ j < num, (c.getD (inits.length + j) []).length = fs.length) :
+    lift (inits.length + 1) (odeResidual inits.length fs) ((num - 1 : ℕ) : ℤ) c t
+        = some (List.replicate num (List.replicate fs.length 0))
+      ↔ c = taylorCoeffs fs inits t num := by
+  rw [lift_spec (inits.length + 1) (odeResidual inits.length fs) (num - 1) c t (by omega)
+    (odeResidual_order _ fs hord) (by omega), show num - 1 + 1 = num by omega]
+  simp only [Option.some.injEq]
+  have hinit' : ∀ k < inits.length, c.getD k [] = inits.getD k [] := by
+    intro k hk
+    conv_rhs => rw [← hinit]
+    simp [List.getD_eq_getElem?_getD, hk]
+  have entry : ∀ j < num, (tabulate num fun j => (odeResidual inits.length fs).map fun g => evalOn c t (iter D j g)).getD j []
+      = (odeResidual inits.length fs).map fun g => evalOn c t (iter D j g) := fun j hj => tabulate_getD_lt _ hj _
+  constructor
+  · intro h
+    refine tc_unique fs inits t num hord c hlen hinit' fun j hj => ?_
+    have hj' : (odeResidual inits.length fs).map (fun g => evalOn c t (iter D j g)) = List.replicate fs.length 0 := by
+      rw [← entry j hj, h]; simp [List.getD_eq_getElem?_getD, hj]
+    refine list_ext_getD 0 (by rw [hdim j hj]; simp) fun a ha => ?_
+    have ha' : a < fs.length := by rw [hdim j hj] at ha; exact ha
+    have h2 := congrArg (fun l => l.getD a 0) hj'
+    simp only [lifted_residual_entry _ fs c t j a ha'] at h2
+    have h3 : (List.replicate fs.length (0 : K)).getD a 0 = 0 := by
+      simp [List.getD_eq_getElem?_getD, ha']
+    rw [h3, sub_eq_zero] at h2
+    have e : fs.getD a (const 0) = fs[a] := by simp [List.getD_eq_getElem?_getD, ha']
+    rw [show (c.getD (inits.length + j) []).getD a 0 = getU c (inits.length + j) a from rfl, h2, e]
+    simp [List.getD_eq_getElem?_getD, ha']
+  · intro h
+    refine list_ext_getD [] (by simp) fun j hj => ?_
+    have hj' : j < num := by simpa using hj
+    rw [entry j hj']
+    have : (List.replicate num (List.replicate fs.length (0 : K))).getD j [] = List.replicate fs.length 0 := by
+      simp [List.getD_eq_getElem?_getD, hj']
+    rw [this]
+    refine list_ext_getD 0 (by simp [odeResidual_length]) fun a ha => ?_
+    have ha' : a < fs.length := by simpa [odeResidual_length] using ha
+    rw [lifted_residual_entry _ fs c t j a ha']
+    have h3 : (List.replicate fs.length (0 : K)).getD a 0 = 0 := by
+      simp [List.getD_eq_getElem?_getD, ha']
+    rw [h3, sub_eq_zero, h]
+    have := tc_get fs inits t hord hj'
+    unfold getU
+    rw [this]
+    have e : fs.getD a (const 0) = fs[a] := by simp [List.getD_eq_getElem?_getD, ha']
+    rw [e]
+    simp [List.getD_eq_getElem?_getD, ha']
+
+
+
+end residual_route
+
 /-! ## non-vacuity -/
 
 /-- a second-order residual in two dimensions: `r = [u_0·u'_1 + t, u_1² − u'_0·t]` -/
@@ -364,5 +485,15 @@ example : (linDense 4 2 (odeResidual 2 exampleResidual) exampleCoeffs (1/2)).1.t
   decide +kernel
 
 
+
+theorem odeResidual_witness : odeResidual 1 [witnessD4] = [add (var 1 0) (neg witnessD4)] := by
+  rfl
+
+/-- `residual_route_determines`: the exact coefficients of `u' = t·u + t²`, `u(1/2) = 1` annihilate the
+ODE residual lifted twice; the frozen-time list of D4 does not -/
+example : lift 2 (odeResidual 1 [witnessD4]) 2 [[1], [3/4], [19/8], [75/16]] (1/2) = some [[0], [0], [0]] ∧
+    lift 2 (odeResidual 1 [witnessD4]) 2 [[1], [3/4], [3/8], [3/16]] (1/2) = some [[0], [-2], [-7/2]] := by
+  rw [odeResidual_witness]
+  decide +kernel
 
 end Pdq.C11
